@@ -6,6 +6,7 @@ import (
 	"sync"
 	"sync/atomic"
 	"testing"
+	"time"
 
 	"github.com/gogo/protobuf/proto"
 	pb "github.com/ipfs/boxo/ipld/unixfs/pb"
@@ -388,6 +389,54 @@ func TestC09(t *testing.T) {
 			}
 		}
 		c.Sig("builder-encode", true)
+	})
+	// modification times given as Go time values (builder.Time): every instant a time.Time can hold has a
+	// Unix second count and a nanosecond part, inside and outside the range in which a count of
+	// nanoseconds fits an int64 (1678..2262)
+	r.Case("builder-time", map[string]any{"instants": "boundary and random time.Time values via builder.Time"}, func(c *mon.Case) {
+		rr := c.Rand()
+		instants := []time.Time{{}, time.Unix(0, 0), time.Unix(-1, 999999999), time.Unix(0, 1), time.Unix(1<<31, 0), time.Unix(-(1 << 31), 5),
+			time.Date(1600, 1, 1, 0, 0, 0, 7, time.UTC), time.Date(1677, 9, 21, 0, 12, 43, 145224191, time.UTC), time.Date(1677, 9, 21, 0, 12, 43, 145224193, time.UTC),
+			time.Date(2262, 4, 11, 23, 47, 16, 854775807, time.UTC), time.Date(2262, 4, 11, 23, 47, 16, 854775808, time.UTC), time.Date(2300, 6, 1, 12, 0, 0, 0, time.UTC),
+			time.Date(9999, 12, 31, 23, 59, 59, 999999999, time.UTC), time.Date(1, 1, 1, 0, 0, 0, 1, time.UTC), time.Date(1969, 12, 31, 23, 59, 59, 500000000, time.FixedZone("x", -7*3600)),
+			time.Unix(1<<40, 3), time.Unix(-(1 << 40), 3)}
+		for i := 0; i < r.Pick(300, 5000); i++ {
+			instants = append(instants, time.Unix(rr.Int63n(1<<uint(20+rr.Intn(28)))*int64(1-2*rr.Intn(2)), int64(rr.Intn(1000000000))))
+		}
+		for _, t := range instants {
+			var d data.UnixFSData
+			var err error
+			if !c.Guard("BuildUnixFS with builder.Time", func() {
+				d, err = builder.BuildUnixFS(func(b *builder.Builder) {
+					builder.DataType(b, data.Data_File)
+					builder.Mtime(b, func(tb builder.TimeBuilder) { builder.Time(tb, t) })
+				})
+			}) {
+				continue
+			}
+			if err != nil {
+				c.Violation("C09|builder-error", "BuildUnixFS with builder.Time(%v): %v", t, err)
+				continue
+			}
+			var enc []byte
+			if !c.Guard("EncodeUnixFSData", func() { enc = data.EncodeUnixFSData(d) }) {
+				continue
+			}
+			c.Count("encodes_compared", 1)
+			c.Count("time_values_encoded", 1)
+			if t.Year() < 1678 || t.Year() > 2262 {
+				c.Count("time_values_outside_unixnano_range", 1)
+			}
+			var g pb.Data
+			if err := proto.Unmarshal(enc, &g); err != nil {
+				c.Violation("C09|encode-unreadable", "builder.Time(%v): reference rejects %x: %v", t, enc, err)
+				continue
+			}
+			if g.Mtime == nil || g.Mtime.GetSeconds() != t.Unix() || int(g.Mtime.GetNanos()) != t.Nanosecond() {
+				c.Violation("C09|encode-differs|builder-time", "builder.Time(%v) = second %d + %d ns: the reference reads the encoding %x as second %d + %d ns", t, t.Unix(), t.Nanosecond(), enc, g.Mtime.GetSeconds(), g.Mtime.GetNanos())
+			}
+		}
+		c.Sig("builder-time", true)
 	})
 	// the codec used from several goroutines at once (each with its own messages): every encoding and
 	// decoding comes out as it does alone
